@@ -7,7 +7,7 @@ from ..util import stream
 
 PROP = "C01"
 LEVEL = "exploration"
-N = {"quick": 24000, "thorough": 600000}
+N = {"quick": 150000, "thorough": 3000000}
 RULE = ("seeded instance (flexible / zero durations / recirculation / irregular / degenerate shapes) x filter "
         "configuration x op list (dispatch from raw-ready or filtered list on any eligible machine, invalid "
         "requests, query bursts, resets); independent feasibility checker after every op; a case is non-trivial "
